@@ -364,6 +364,60 @@ static void body()
                                           kind == 0 ? "from the beginning" : kind == 1 ? "from the end" : kind == 2 ? "forwards from the start position" : "backwards from the limit", at, anchor));
         });
     }
+    // soak: more than 2^17 consecutive searches inside ONE case (one process, one thread) on haystacks and needles above the
+    // sizes where an implementation might switch algorithm (needles of 4..40 bytes, haystacks of 80..400), so that state kept
+    // between calls - a skip table with a generation counter, a call counter that enables a fast path, a memo of the last
+    // needle - goes through its whole cycle.  Most needles use a small core alphabet; a few long ones carry a "rare" byte that
+    // then stays out of all needles for a long time while haystacks keep containing it right in front of occurrences.
+    {
+        vrt::require("soak.searches", 1000000);
+        vrt::require("soak.needles_with_a_rare_byte", 20);
+        vrt::phase("soak", 16, [&](uint64_t, Rng &r) {
+            const size_t iters = static_cast<size_t>(vrt::tier_count(400000, 4000000));
+            static const char core[] = "abcdefgh";
+            uint64_t searches = 0;
+            S h, n;
+            for (size_t it = 0; it < iters; ++it) {
+                const bool rare_needle = r.chance(1, 700);
+                const size_t nlen = rare_needle ? 24 + r.below(17) : 4 + r.below(9);
+                n.clear();
+                for (size_t k = 0; k < nlen; ++k) n += core[r.below(8)];
+                if (rare_needle) { n[r.below(nlen - 1)] = static_cast<char>(0xA0 + r.below(80)); vrt::count("soak.needles_with_a_rare_byte"); }
+                // haystack: filler rich in rare bytes, [occurrence], filler; sometimes a near-miss, sometimes nothing
+                const size_t hlen = nlen + 64 + r.below(300);
+                h.clear();
+                const unsigned shape = static_cast<unsigned>(r.below(8));
+                const size_t at = r.below(hlen - nlen + 1);
+                for (size_t k = 0; k < hlen; ++k)
+                    h += r.chance(1, 3) ? static_cast<char>(0xA0 + r.below(80)) : core[r.below(8)];
+                if (shape != 0) h.replace(at, nlen, n);
+                if (shape == 1) h[at + r.below(nlen)] = '#';                       // near-miss only
+                if (shape == 2 && at > nlen + 2) h.replace(r.below(at - nlen), nlen, n);   // an earlier occurrence as well
+                const bool ci = r.chance(1, 5);
+                if (ci && r.chance(1, 2)) n = ref::uppered(n);
+                const ST::case_sensitivity_t cs = ci ? ST::case_insensitive : ST::case_sensitive;
+                vrt::cur_rewind();
+                vrt::Box<ST::string> hs(vrt::mk(h));
+                Ctx ctx{&h, &n, ci};
+                const size_t start = r.chance(1, 3) ? r.below(hlen) : 0, limit = r.chance(1, 3) ? r.below(hlen + 1) : SMAX;
+                const long wf = ref::find(h, n, start, ci), wl = ref::find_last(h, n, limit, ci);
+                switch (it % 3) {
+                case 0: { vrt::Box<ST::string> ns(vrt::mk(n)); CHECK("find", "soak ST::string", start, hs->find(start, *ns, cs), wf);
+                          CHECK("find_last", "soak ST::string", limit, hs->find_last(limit, *ns, cs), wl); break; }
+                case 1: { vrt::Exact<char> np(n.data(), n.size(), false); CHECK("find", "soak ptr+len", start, hs->find(start, np.data(), n.size(), cs), wf);
+                          CHECK("contains", "soak ptr+len", 0, hs->contains(np.data(), n.size(), cs), ref::find(h, n, 0, ci) >= 0); break; }
+                default: { vrt::Exact<char> nc(n.data(), n.size(), true); CHECK("find", "soak cstr", start, hs->find(start, nc.data(), cs), wf);
+                           CHECK("find_last", "soak cstr", limit, hs->find_last(limit, nc.data(), cs), wl);
+                           CHECK("ends_with", "soak cstr", 0, hs->ends_with(nc.data(), cs), ref::ends_with(h, n, ci)); break; }
+                }
+                searches += 2;
+            }
+            vrt::count("soak.searches", searches);
+            vrt::distinct(vrt::fnv_u64(r.next(), 99));
+            if (vrt::want_sample("soak"))
+                vrt::sample("soak", sfmt("%zu consecutive (haystack, needle) pairs in one process; last: haystack %s needle=%s", iters, scale::brief(h).c_str(), show(n).c_str()));
+        });
+    }
     vrt::alloc::check_pairing("search");
 }
 
